@@ -166,6 +166,12 @@ func (g *reqGen) item(e elem, pos int, kind, class string, src source) placement
 	if g.rng.IntN(12) == 0 {
 		size = g.pickSize()
 	}
+	if g.rng.IntN(6) == 0 {
+		// characters a decoder may choke on, in values of every kind that leaves room for them
+		if cv := charVariants[g.rng.IntN(len(charVariants))]; !(cv.NoCookie && src.Kind == "cookie") {
+			return g.mintedItem(e, pos, kind, class, src, size, cv)
+		}
+	}
 	return g.sizedItem(e, pos, kind, class, src, size)
 }
 
@@ -189,6 +195,11 @@ func (g *reqGen) statusClass(kind string, meta bool) string {
 
 // sizedItem: as item, the value padded to just above the named size ("" = short).
 func (g *reqGen) sizedItem(e elem, pos int, kind, class string, src source, size string) placement {
+	return g.mintedItem(e, pos, kind, class, src, size, charVariant{})
+}
+
+// mintedItem: as sizedItem, the value ending with the characters of cv (cv.Name "" = none).
+func (g *reqGen) mintedItem(e elem, pos int, kind, class string, src source, size string, cv charVariant) placement {
 	user, pass := e.basicUser()
 	if e.proto().Type != "basic" {
 		user, pass = basicUsers[0].User, basicUsers[0].Pass
@@ -200,11 +211,14 @@ func (g *reqGen) sizedItem(e elem, pos int, kind, class string, src source, size
 	if size != "" {
 		minLen = sizes[size] + 100 + g.rng.IntN(200)
 	}
-	v := g.m.mintSized(kind, class, g.sub(), user, pass, minLen)
+	v := g.m.mintWith(kind, class, g.sub(), user, pass, minLen, cv.Tail)
 	if len(v) < minLen {
 		size = "" // the kind/class leaves no room for padding
 	}
 	p := placement{Slot: src.slot(), Scheme: src.Scheme, Value: v, Kind: kind, Class: class, Size: size, For: pos}
+	if cv.Tail != "" && strings.HasSuffix(v, cv.Tail) {
+		p.Chars = cv.Name
+	}
 	if src.Kind == "header" && src.Scheme != "" && g.rng.IntN(4) == 0 {
 		// more than one blank between scheme and credentials
 		p.Sep = []string{"  ", "   "}[g.rng.IntN(2)]
@@ -215,9 +229,56 @@ func (g *reqGen) sizedItem(e elem, pos int, kind, class string, src source, size
 	return p
 }
 
-// dress decides how the body credentials of a request (if any) are transported: form or JSON, and the spelling
-// of the Content-Type header.
+// methods: the request method is a dimension of its own for every credential location. The statement (and the
+// documentation of the credential sources) knows no method for which credentials present in a request do not count.
+var methods = []string{"GET", "HEAD", "DELETE", "OPTIONS", "PUT", "PATCH", "POST"}
+
+// pathVariant: what follows the route prefix of the rule (matched by its free wildcard) in the request path: odd but
+// matchable. EnvoyOnly: net/http refuses a request line with such a target before heimdall sees it (and a proxy in front
+// of the HTTP decision service would do the same), Envoy hands it over as received: only the request sent through the
+// Envoy entry point has that path, the HTTP decision service gets the plain one.
+type pathVariant struct {
+	Name, Suffix string
+	EnvoyOnly    bool
+}
+
+var pathVariants = []pathVariant{
+	{Name: "sub-path", Suffix: "/offers/today"},
+	{Name: "encoded-slash", Suffix: "/a%2Fb/c"},
+	{Name: "encoded-slash-lower-case", Suffix: "/a%2fb"},
+	{Name: "encoded-non-ascii", Suffix: "/caf%C3%A9"},
+	{Name: "raw-non-ascii", Suffix: "/café/ünï"},
+	{Name: "encoded-percent", Suffix: "/offers/50%25/today"},
+	{Name: "encoded-question-mark", Suffix: "/what%3Fnow"},
+	{Name: "sub-delims", Suffix: "/a;v=1/b,c/d=e&f"},
+	{Name: "literal-percent", Suffix: "/offers/50%/today", EnvoyOnly: true},
+	{Name: "broken-escape", Suffix: "/%zz", EnvoyOnly: true},
+	{Name: "truncated-escape", Suffix: "/file%4", EnvoyOnly: true},
+	{Name: "percent-at-end", Suffix: "/100%", EnvoyOnly: true},
+}
+
+func pathVariantByName(n string) pathVariant {
+	for _, p := range pathVariants {
+		if p.Name == n {
+			return p
+		}
+	}
+	panic("unknown path variant " + n)
+}
+
+// dress decides what does not belong to the credentials: the request method (its own, or named by a trusted proxy
+// through X-Forwarded-Method), the request path below the route prefix of the rule, and how the body credentials of a
+// request (if any) are transported: form or JSON, and the spelling of the Content-Type header.
 func (g *reqGen) dress(r *lreq) {
+	if g.rng.IntN(5) < 2 {
+		r.Method = methods[g.rng.IntN(len(methods))]
+		if g.rng.IntN(3) == 0 {
+			r.Carrier = []string{"GET", "POST"}[g.rng.IntN(2)]
+		}
+	}
+	if g.rng.IntN(5) < 2 {
+		r.Path = pathVariants[g.rng.IntN(len(pathVariants))].Name
+	}
 	if !r.hasBodyItems() {
 		return
 	}
@@ -368,6 +429,24 @@ func (g *reqGen) requests(c chain, n int) []lreq {
 			add(lreq{Recipe: recipe, Items: []placement{it}})
 		}
 	}
+	// characters a decoder may choke on inside a valid and a rejected value (the kinds whose format leaves room for them)
+	for _, class := range []string{"valid", ""} {
+		p := ps[g.rng.IntN(len(ps))]
+		e := c.Elems[p]
+		k := nativeKind[e.proto().Type]
+		recipe := "special-characters-valid"
+		if class == "" {
+			class, recipe = g.rejectClass(k), "special-characters-invalid"
+		}
+		src := g.pickSource(e)
+		cv := charVariants[g.rng.IntN(len(charVariants))]
+		if cv.NoCookie && src.Kind == "cookie" {
+			cv = charVariants[0]
+		}
+		if it := g.mintedItem(e, p, k, class, src, "", cv); it.Chars != "" {
+			add(lreq{Recipe: recipe, Items: []placement{it}})
+		}
+	}
 	for tries := 0; len(out) < n && tries < n*20; tries++ {
 		p := ps[g.rng.IntN(len(ps))]
 		e := c.Elems[p]
@@ -478,8 +557,14 @@ func queryEscape(s string) string {
 // name, a name that is not a token. net/http's Request.Cookie skips such pairs.
 var malformedCookiePairs = []string{"consent", "name=Jürgen", `path=c:\temp`, `pref="a b`, "=orphan", "bad name=1", "lang=de,en"}
 
-func (r lreq) wire(path string) wire {
+// wire: the request as sent to the HTTP decision service resp. (envoy) as presented to the Envoy entry point.
+func (r lreq) wire(path string, envoy bool) wire {
 	w := wire{Method: "GET", Target: path, Headers: map[string]string{}}
+	if r.Path != "" {
+		if pv := pathVariantByName(r.Path); envoy || !pv.EnvoyOnly {
+			w.Target += pv.Suffix
+		}
+	}
 	var q, body, cookies []string
 	jsonBody := map[string]string{}
 	items := append([]placement{}, r.Items...)
@@ -560,5 +645,23 @@ func (r lreq) wire(path string) wire {
 		}
 		w.Chunked = sum%2 == 1
 	}
+	if r.Method != "" {
+		w.Method = r.Method
+		if r.Carrier != "" && !envoy {
+			w.Method = r.Carrier
+			w.Headers["X-Forwarded-Method"] = r.Method
+		}
+	}
 	return w
+}
+
+// effectiveMethod: the method of the (original) request.
+func (r lreq) effectiveMethod() string {
+	switch {
+	case r.Method != "":
+		return r.Method
+	case r.hasBodyItems():
+		return "POST"
+	}
+	return "GET"
 }
